@@ -314,6 +314,14 @@ func (r *chainRun) doStep(st *CStep) *Violation {
 		r.u.AddTx(tx.Txid)
 		r.txs[string(tx.Txid)] = CloneTx(tx)
 		r.logf("built %s", descTx(tx))
+		stamped := false
+		if r.cfg.Snap && !r.cfg.Admit && abs(st.D)%5 == 4 {
+			// an unusual input: the posted transaction arrives with its (unauthenticated) block id field
+			// already naming a block of the main chain; whether the node takes it or not, it is pending
+			tx.Blockid = append([]byte{}, n.L.GetMeta().TipBlockid...)
+			stamped = true
+			r.rc.St.Probes["posted-tx-carrying-blockid"]++
+		}
 		targets := []int{ni}
 		for j := range r.w.Nodes {
 			if j != ni && st.Via&(1<<uint(j)) != 0 {
@@ -329,6 +337,9 @@ func (r *chainRun) doStep(st *CStep) *Violation {
 			}
 			err := tn.Chain.SubmitTx(tn.BaseCtx(), CloneTx(tx))
 			r.logf("submit %s to %s: %v", hx(tx.Txid), tn.Name, err != nil)
+			if stamped && err == nil {
+				r.rc.St.Probes["posted-tx-carrying-blockid-admitted"]++
+			}
 			if tj == ni {
 				failed = err != nil
 			}
